@@ -183,7 +183,7 @@ def run_tlapm(module, timeout=900):
     t0 = time.time()
     d = os.path.join(SPEC, "proofs")
     shutil.rmtree(os.path.join(d, ".tlacache"), ignore_errors=True)
-    p = subprocess.run(["timeout", str(timeout), "tlapm", "--threads", "8", module + ".tla"], cwd=d, stdout=subprocess.PIPE, stderr=subprocess.STDOUT, text=True)
+    p = subprocess.run(["timeout", str(timeout), "tlapm", "--cleanfp", "--threads", "8", module + ".tla"], cwd=d, stdout=subprocess.PIPE, stderr=subprocess.STDOUT, text=True)
     out = p.stdout
     shutil.rmtree(os.path.join(d, ".tlacache"), ignore_errors=True)
     m = re.search(r"All (\d+) obligations? proved", out)
